@@ -170,7 +170,7 @@ def rnd_case(rng, opt=None, force_first_onesided=False, allow_neg=True):
         x0 = [min(max(v, l), h) for v, l, h in zip(x0, lo, hi)]
     case = {'kind': 'qp', 'n': n, 'H': H, 'b': b, 'cons': cons, 'dv': dv, 'obj': obj, 'opt': opt,
             'x0': [jq(v) for v in x0], 'xp': [jq(F(rng.randrange(-8, 9), 4)) for _ in range(n)],
-            'tol_feas': 1e-6, 'tol_opt': {'SLSQP': 5e-5, 'COBYLA': 2e-4, 'trust-constr': 1e-3}[opt]}
+            'tol_feas': 1e-6, 'tol_opt': {'SLSQP': 5e-5, 'COBYLA': 2e-4, 'trust-constr': 1e-2}[opt]}
     return case
 
 
@@ -201,7 +201,7 @@ def pattern_cases():
                             'dv': {'lower': None, 'upper': None, 'adder': None, 'scaler': None},
                             'obj': {'adder': None, 'scaler': None}, 'opt': opt,
                             'x0': [jq(0)] * n, 'xp': [jq(F(3, 4))] * n, 'class': 'patterns',
-                            'tol_feas': 1e-6, 'tol_opt': {'SLSQP': 5e-5, 'COBYLA': 2e-4, 'trust-constr': 1e-3}[opt]})
+                            'tol_feas': 1e-6, 'tol_opt': {'SLSQP': 5e-5, 'COBYLA': 2e-4, 'trust-constr': 1e-2}[opt]})
     return out
 
 
@@ -227,13 +227,20 @@ def econ_lets(case):
     return '\n  '.join(lets), names
 
 
+def has_neg(con):
+    sc = con['scaling']
+    if sc['t'] != 'as' or sc['scaler'] is None:
+        return False
+    return any(v < 0 for v in blist(sc['scaler'], con_size(con), F(1)))
+
+
 class C21(Spec):
     pid = 'C21'
     imports = ['C21.Model']
     impl_script = 'props/C21/impl.py'
     exactness = ('E1/E3 exact: the list of constraint descriptors handed to scipy.optimize.minimize (type, name, dbl, idx; '
                  'lb/ub/A of new-style objects) and _confunc/_congradfunc probes on dyadic data; E4 (tolerances in each case: '
-                 'feasibility 1e-6, optimum 5e-5 SLSQP / 1e-3 trust-constr; for COBYLA the optimum is recorded, not enforced) for the end-to-end oracle')
+                 'feasibility 1e-6, optimum 5e-5 SLSQP / 1e-2 trust-constr; for COBYLA the optimum is recorded, not enforced) for the end-to-end oracle')
     shard = 80
     impl_jobs = 4
     rule = ('all per-element patterns {lower-only, upper-only, two-sided, none}^m, m <= 3 (m = 3: all with SLSQP, a third each with COBYLA and trust-constr), x 3 optimizers; random strictly convex QPs '
@@ -274,11 +281,13 @@ class C21(Spec):
     def shrink(self, c):
         if len(c['cons']) > 1:
             for k in range(len(c['cons'])):
+                if has_neg(c['cons'][k]):
+                    continue
                 d = copy.deepcopy(c)
                 del d['cons'][k]
                 yield d
         for k, con in enumerate(c['cons']):
-            if con['scaling']['t'] != 'none':
+            if con['scaling']['t'] != 'none' and not has_neg(con):   # keep what the signature names
                 d = copy.deepcopy(c)
                 d['cons'][k]['scaling'] = {'t': 'none'}
                 yield d
